@@ -386,6 +386,17 @@ int process_start(pid_t *process,
       }
     }
 
+    // `dup2` does nothing when a child handle already has the number of the
+    // stream it is redirected to (and another stream's handle might have that
+    // number too), so the close-on-exec flag we set on our own handles and
+    // above could still be set on the standard streams. Clear it.
+    for (int i = 0; i < (int) ARRAY_SIZE(redirect); i++) {
+      r = handle_cloexec(i, false);
+      if (r < 0) {
+        goto child;
+      }
+    }
+
     // Make sure the `exit` file descriptor is inherited.
 
     r = handle_cloexec(options.handle.exit, false);
